@@ -36,6 +36,7 @@ import (
 
 	"github.com/anishathalye/porcupine"
 	"github.com/nspcc-dev/neofs-node/internal/verifkit"
+	"github.com/nspcc-dev/neofs-node/pkg/local_object_storage/blobstor/common"
 	"github.com/nspcc-dev/neofs-node/pkg/local_object_storage/blobstor/fstree"
 	meta "github.com/nspcc-dev/neofs-node/pkg/local_object_storage/metabase"
 	"github.com/nspcc-dev/neofs-node/pkg/local_object_storage/shard/mode"
@@ -60,29 +61,35 @@ type vf16Blob struct {
 
 var errVf16Blob = errors.New("vf16: injected blobstor write failure")
 
-func (b *vf16Blob) fail() bool {
+// fail decides whether the next write fails: with a generic I/O error or with "no space".
+func (b *vf16Blob) fail() error {
 	p := b.failPermille.Load()
 	if p == 0 {
-		return false
+		return nil
 	}
 	b.mu.Lock()
 	defer b.mu.Unlock()
-	return b.rng.IntN(1000) < int(p)
+	if b.rng.IntN(1000) >= int(p) {
+		return nil
+	}
+	b.failed.Add(1)
+	if b.rng.IntN(2) == 0 {
+		return fmt.Errorf("vf16: injected: %w", common.ErrNoSpace)
+	}
+	return errVf16Blob
 }
 
 func (b *vf16Blob) Put(a oid.Address, d []byte) error {
-	if b.fail() {
-		b.failed.Add(1)
-		return errVf16Blob
+	if err := b.fail(); err != nil {
+		return err
 	}
 	b.ok.Add(1)
 	return b.FSTree.Put(a, d)
 }
 
 func (b *vf16Blob) PutBatch(m map[oid.Address][]byte) error {
-	if b.fail() {
-		b.failed.Add(1)
-		return errVf16Blob
+	if err := b.fail(); err != nil {
+		return err
 	}
 	b.ok.Add(1)
 	return b.FSTree.PutBatch(m)
@@ -525,10 +532,15 @@ func vf16RunRound(r *verifkit.Run, idx int) {
 		}
 		// deleter
 		client(func(crng *rand.Rand, cl int) {
-			for i := 0; i < 8; i++ {
-				pause(crng, 250)
+			for i := 0; i < 14; i++ {
+				pause(crng, 150)
+				// only objects whose cached put was acknowledged are deleted ("until the object
+				// is deleted"); deleting never-stored addresses is not part of this property
 				o := x.objs[crng.IntN(len(x.objs))]
-				if o.del {
+				x.mu.Lock()
+				_, ack := x.acked[o.addr]
+				x.mu.Unlock()
+				if o.del && ack {
 					x.del(o, cl)
 				}
 			}
@@ -592,6 +604,34 @@ func vf16RunRound(r *verifkit.Run, idx int) {
 		byAddr[op.addr] = append(byAddr[op.addr], op.op)
 	}
 	for a, h := range byAddr {
+		// The statement starts to bind when a put has RETURNED.  While a put is in flight the
+		// object may already be visible through one path (cache) and not yet through another
+		// (metadata written last), so a "found" that overlaps a put of the same address says
+		// nothing about the register: it is left out (a "not found" stays: it must then be
+		// explainable by an order in which no acknowledged cached put precedes it).
+		var puts [][2]int64
+		for _, op := range h {
+			if op.Input.(vf16In).Kind == "put" {
+				puts = append(puts, [2]int64{op.Call, op.Return})
+			}
+		}
+		kept := h[:0:0]
+		for _, op := range h {
+			drop := false
+			if op.Input.(vf16In).Kind == "read" && op.Output.(vf16Out).Res == "found" {
+				for _, p := range puts {
+					if op.Call <= p[1] && op.Return >= p[0] {
+						drop = true
+					}
+				}
+			}
+			if drop {
+				r.Count("reads_found_during_inflight_put_not_judged", 1)
+			} else {
+				kept = append(kept, op)
+			}
+		}
+		h = kept
 		res, info := porcupine.CheckOperationsVerbose(vf16Model, h, 60*time.Second)
 		r.Count("histories_checked", 1)
 		r.Max("longest_history_ops", int64(len(h)))
